@@ -12,7 +12,8 @@ Verdict(k) ==
   ELSE IF r.e = "HDay" THEN
        (* the other direction, Hijri dates far beyond any table included: a date is either rejected *)
        (* or it is the image of its own Gregorian image - never mapped to some day it is not     *)
-       IF r.g = <<0, 0, 0>> THEN "skip" ELSE IF r.back = r.h THEN "ok" ELSE "bad"
+       (* (a day number beyond the length of its month - the tables have a 28-day month - is no date of the calendar) *)
+       IF r.g = <<0, 0, 0>> THEN "skip" ELSE IF r.ndim > 0 /\ r.h[3] > r.ndim THEN "skip" ELSE IF r.back = r.h THEN "ok" ELSE "bad"
   ELSE IF Rejected(r) THEN
        (* a rejected day strictly inside the accepted span is a hole in the bijection *)
        IF (\E a \in Accepted : a < k) /\ (\E b \in Accepted : b > k) THEN "bad" ELSE "skip"
